@@ -24,7 +24,7 @@
 From Coq Require Import List NArith ZArith Bool.
 Import ListNotations.
 Require Import V.models.SnapSeq V.proofs.SnapSeqProofs V.proofs.SnapSeqProofs2 V.proofs.SnapSeqProofs3 V.proofs.SnapSeqProofs4
-               V.proofs.SnapSeqProofs5.
+               V.proofs.SnapSeqProofs5 V.proofs.SnapSeqProofs11.
 Open Scope N_scope.
 
 (* run_change o (S j) ts s: the first j tasks of ts complete, the next one fails, the j tasks are undone in reverse.
@@ -46,24 +46,25 @@ Print Assumptions C10_failed_op_restores.
    after the last task): the result is the state before `minus` exactly the revisions of the discard-snap tasks among the
    first j tasks (their kept entries, mounts and RevertStatus marks go; current, active, channel, flags, times,
    configuration, link and the ORDER of the others are as before).  Install and revert changes have no discards.
-   EXACTLY what the statement excludes, and why it keeps the `_partial` label:
+   EXACTLY what the statement excludes (cfg_guard_at is refined to the failure position j), and why the label stays:
      (1) retain < 2 — outside the values configcore accepts (2..20);
-     (2) cfg_guard o s false, i.e. the snap has NO configuration (cfg s = 0, installed) AND (the configure hook of this
-         operation writes configuration (ohookcfg o <> 0), OR a stale revision-config snapshot exists for the current
-         revision).  The first alternative contains the recorded finding config-from-nothing, but is wider than the class
-         `classify` keys: classify requires the configure hook to have COMPLETED before the failure (and the observed
-         configuration to be the hook's value), cfg_guard excludes the operation whatever the failure position; the second
-         alternative (a snapshot for the current revision while there is no configuration) is believed unreachable — every
-         path that empties the configuration also discards the snapshots, which monitor11 checks on the real code after every
-         settled change — but that is not an invariant proved here.
-   The other recorded finding, fail-after-discard, is not excluded: it IS the conclusion (D non-empty).  Removing `_partial`
-   needs the guard refined to the failure position (configure hook among the first j tasks) and the invariant
-   `cfg = 0 -> no snapshots`; not done. *)
+     (2) the snap has NO configuration (cfg s = 0), the configure hook of the operation writes some (ohookcfg o <> 0) AND the
+         hook is among the first j tasks, i.e. it COMPLETED before the failure: this is exactly the class `classify` keys as
+         config-from-nothing (recorded finding 13, witness C10_config_refuted);
+     (3) the snap has no configuration but a revision-config snapshot exists for its current revision.  Believed
+         unreachable (every path that empties the configuration also discards the snapshots; monitor11 checks on the real
+         code after every settled change that a removed snap leaves no snapshot), but the invariant `no configuration ->
+         no snapshots` over histories is NOT proved: this hypothesis is the only reason for `_partial`.
+   The other recorded finding, fail-after-discard, is not excluded: it IS the conclusion (D non-empty). *)
 Theorem C10_failed_after_gc_partial : forall (s : st) (o : op) (j : nat) (retain : Z) (inuse : N -> bool),
-  wf s -> okind o = ORefresh -> accepts o s = true -> (2 <= retain)%Z -> cfg_guard o s ->
+  wf s -> okind o = ORefresh -> accepts o s = true -> (2 <= retain)%Z ->
+  (cfg s <> 0 \/
+   (rc_get (cur s) (revcfg s) = None /\
+    (ohookcfg o = 0 \/
+     forallb (fun t => negb (kind_eqb (fst t) KConfigure)) (firstn j (tasks_for o s retain inuse)) = true))) ->
   forget (run_change o (S j) (tasks_for o s retain inuse) s)
   = forget (minus (map snd (filter is_discard (firstn j (tasks_for o s retain inuse)))) s).
-Proof. exact failed_after_gc_any. Qed.
+Proof. exact failed_after_gc_at. Qed.
 Print Assumptions C10_failed_after_gc_partial.
 
 (* the shape that exercises it: kept [1,2,3,4,5], current 5, retain lowered to 2, refresh to the kept revision 4 failing
